@@ -71,12 +71,12 @@ CtrlAct(a, nc) == IF a.k = "gate" THEN Gate(Ctrl(a.b, nc), a.n) ELSE a
 RECURSIVE Decomp(_)
 Decomp(x) ==
   CASE x.t = "comp" -> Lib[x.g]
-    [] x.t = "prod" -> [i \in 1..Len(x.kids) |-> Gate(x.kids[i][1], x.kids[i][2])]      \* each factor, its count
+    [] x.t = "prod" -> TLCEval([i \in 1..Len(x.kids) |-> Gate(x.kids[i][1], x.kids[i][2])])      \* each factor, its count
     [] x.t = "pow"  -> << Gate(Base(x), x.n) >>                                          \* z repetitions of the base
     [] x.t = "adj"  -> IF Base(x).t = "adj" THEN << Gate(Base(Base(x)), 1) >>            \* adjoint of adjoint = base
-                       ELSE LET d == Decomp(Base(x)) IN [i \in 1..Len(d) |-> AdjAct(d[Len(d) + 1 - i])]
+                       ELSE LET d == TLCEval(Decomp(Base(x))) IN TLCEval([i \in 1..Len(d) |-> AdjAct(d[Len(d) + 1 - i])])
     [] x.t = "ctrl" -> IF Base(x).t = "ctrl" THEN << Gate(Ctrl(Base(Base(x)), x.n + Base(x).n), 1) >>
-                       ELSE LET d == Decomp(Base(x)) IN [i \in 1..Len(d) |-> CtrlAct(d[i], x.n)]
+                       ELSE LET d == TLCEval(Decomp(Base(x))) IN TLCEval([i \in 1..Len(d) |-> CtrlAct(d[i], x.n)])
 
 \* A term is counted (not decomposed) when it is a leaf, a leaf under adjoint / control wrappers (the harness puts the
 \* wrapped leaf names into the gate set), or a bare composite that is a member of the gate set GS.
@@ -101,7 +101,7 @@ RECURSIVE RunTerm(_, _, _)
 RECURSIVE RunActs(_, _, _, _)
 RunTerm(x, scalar, GS) ==
   IF Counted(x, GS) THEN << ECount(StackBase(x), scalar) >>
-  ELSE LET d == Decomp(x) IN RunActs(d, scalar, NetAlloc(d) # 0, GS)
+  ELSE LET d == TLCEval(Decomp(x)) IN RunActs(d, scalar, NetAlloc(d) # 0, GS)
 RunActs(d, scalar, scaled, GS) ==
   IF d = <<>> THEN <<>>
   ELSE LET a == d[1]
@@ -115,14 +115,21 @@ RECURSIVE Events(_, _)
 Events(wf, GS) == IF wf = <<>> THEN <<>> ELSE RunTerm(wf[1], 1, GS) \o Events(Tail(wf), GS)
 
 \* ------------------------------------------------------------------ denotational counts (the property's reading)
-\* occurrences of gate g in one application of x: the sum over the parts, each multiplied by its repetitions
-RECURSIVE DenCount(_, _, _)
-RECURSIVE DenActs(_, _, _)
-DenCount(x, g, GS) == IF Counted(x, GS) THEN (IF StackBase(x) = g THEN 1 ELSE 0) ELSE DenActs(Decomp(x), g, GS)
-DenActs(d, g, GS) == IF d = <<>> THEN 0
-                     ELSE (IF d[1].k = "gate" THEN d[1].n * DenCount(d[1].b, g, GS) ELSE 0) + DenActs(Tail(d), g, GS)
-RECURSIVE DenSeq(_, _, _)
-DenSeq(wf, g, GS) == IF wf = <<>> THEN 0 ELSE DenCount(wf[1], g, GS) + DenSeq(Tail(wf), g, GS)
+\* occurrences of every gate in one application of x, as a vector over all names: the sum over the parts, each multiplied
+\* by its repetitions
+GateNames == DOMAIN Width
+VecZero == [g \in GateNames |-> 0]
+VecUnit(h) == [g \in GateNames |-> IF g = h THEN 1 ELSE 0]
+VecAdd(u, v) == [g \in GateNames |-> u[g] + v[g]]
+VecScale(k, u) == [g \in GateNames |-> k * u[g]]
+RECURSIVE DenVec(_, _)
+RECURSIVE DenActs(_, _)
+DenVec(x, GS) == IF Counted(x, GS) THEN VecUnit(StackBase(x)) ELSE TLCEval(DenActs(TLCEval(Decomp(x)), GS))
+DenActs(d, GS) == IF d = <<>> THEN VecZero
+                  ELSE LET r == TLCEval(DenActs(Tail(d), GS)) IN
+                       IF d[1].k = "gate" THEN TLCEval(VecAdd(VecScale(d[1].n, TLCEval(DenVec(d[1].b, GS))), r)) ELSE r
+RECURSIVE DenSeq(_, _)
+DenSeq(wf, GS) == IF wf = <<>> THEN VecZero ELSE TLCEval(VecAdd(TLCEval(DenVec(wf[1], GS)), TLCEval(DenSeq(Tail(wf), GS))))
 
 \* number of wires an operator acts on (no wire labels: the operators of a workflow are assumed to overlap)
 RECURSIVE TermWidth(_)
